@@ -59,7 +59,7 @@ Definition spec_classes : list (string * N) := [
   ("collectOpType", c_function); ("collectObjectOpType", c_function); ("traverseArrayOpType", c_function);
   ("lengthOpType", c_function); ("notOpType", c_function); ("hasOpType", c_function);
   ("containsOpType", c_function); ("recursiveDescentOpType", c_function); ("getKeyOpType", c_function);
-  ("getParentOpType", c_function); ("getTagOpType", c_function); ("getStyleOpType", c_function);
+  ("getTagOpType", c_function); ("getStyleOpType", c_function);
   ("getKindOpType", c_function); ("getCommentOpType", c_function); ("getAnchorOpType", c_function);
   ("getAliasOpType", c_function); ("joinStringOpType", c_function); ("subStringOpType", c_function);
   ("matchOpType", c_function); ("captureOpType", c_function); ("testOpType", c_function);
@@ -89,6 +89,7 @@ Definition spec_classes : list (string * N) := [
   ("explodeOpType", c_function_post_traverse); ("evalOpType", c_function_post_traverse);
   ("loadOpType", c_function_post_traverse); ("loadStringOpType", c_function_post_traverse);
   ("envOpType", c_function_post_traverse); ("pivotOpType", c_function_post_traverse);
+  ("getParentOpType", c_function_post_traverse);
   (* path elements *)
   ("traversePathOpType", c_path); ("selfReferenceOpType", c_path); ("getVariableOpType", c_path)
 ].
